@@ -18,9 +18,13 @@ Monitors: every `namedAny`/`namedObject` call made through the names bound in tw
 argument; canary calls; audit blocks; after unjelly returns, a bounded walk of the result collecting
 every instance's class and every module / class / function object reached.
 
-Oracle (policy = the *configuration* read from the SecurityOptions' allowedTypes / allowedModules /
-allowedClasses after the harness configured it through the public methods — not its isXAllowed
-methods, so a broken method cannot hide itself):
+Oracle (policy = the harness's OWN record, kept per policy object, of the types / modules / classes it
+allowed on that object through the public allow* methods (`Policy`), following their documented effect
+— never the taster's attributes or methods, so neither a broken method nor corrupted / shared policy
+state can hide itself).  Eight kinds of policy objects live in the process at the same time (a pool
+configured permissive-first, incl. the default `SecurityOptions()` with nothing allowed, a policy that
+allows only the *other* harness module, and `jelly.globalSecurity`); cases alternate at random between
+the pooled objects and fresh objects created after all the others were configured:
 * a resolved dotted name must have an allowed module part (namedAny/namedObject: everything before the
   last dot; direct `__import__` from jelly: the whole name) — also when unjelly then raises;
 * no canary is ever called, no audit guard event happens;
@@ -62,16 +66,17 @@ ENGINE = "core"
 TECHNIQUE = "runtime monitoring: name-resolution/import instrumentation + canaries + result-graph walk against the configured policy; isomorphism check for round trips"
 RULE = ("grammar-based s-expressions (depth <= 4) over every _unjelly_* tag, dotted type names, unknown tags and "
         "malformed shapes, naming harness modules/classes/functions, the allowed module's re-exports and the fixed list "
-        "of canaried dangerous callables; 6 policies (default, basic, allowInstancesOf, modules+function/method/class/"
-        "module/instance, that plus an allowed class, instances+method).  Round trip: random graphs (<= 25 nodes) with "
+        "of canaried dangerous callables; 8 kinds of policy objects alive together (default, basic, allowInstancesOf, modules+function/"
+        "method/class/module/instance, instances+function+method, instances+method, a policy allowing only the other module, "
+        "jelly.globalSecurity), pooled and fresh, used in interleaved order.  Round trip: random graphs (<= 25 nodes) with "
         "shared and cyclic references.  Distinct = (policy, s-expression) resp. graph shape; non-trivial = the "
         "s-expression names a module/class/function/instance/method/dotted type, resp. the graph has a shared or "
         "cyclic reference.")
-ASSUMPTIONS = ["trusted base: the policy model read from the SecurityOptions configuration state, the result walker and the isomorphism checker in this module",
+ASSUMPTIONS = ["trusted base: the per-object policy record kept by the harness (documented effect of allowBasicTypes/allowInstancesOf/allowModules/allowTypes and the default type list), the result walker and the isomorphism checker in this module",
                "dangerous callables are represented by canaries (record + raise); the real ones are never reachable from a generated name",
                "only SecurityOptions-based policies are used (bytes/int/float atoms are always allowed by them)"]
 SHARDS = {"quick": 4, "thorough": 16}
-FLOORS = {"method_atoms_generated": 3000, "inherited_or_dunder_method_names": 2000, "method_atom_cases_returned": 150, "unjelly_calls": 20000, "unjelly_returned": 3000, "unjelly_raised": 3000, "resolution_events": 1000, "objects_walked": 10000,
+FLOORS = {"pooled_policy_cases": 10000, "fresh_policy_cases": 10000, "nothing_allowed_policy_cases": 8000, "method_atoms_generated": 3000, "inherited_or_dunder_method_names": 2000, "method_atom_cases_returned": 150, "unjelly_calls": 20000, "unjelly_returned": 3000, "unjelly_raised": 3000, "resolution_events": 1000, "objects_walked": 10000,
           "canary_selftest_trips": 10, "audit_selftest_blocks": 2, "roundtrips": 500, "roundtrip_shared_or_cyclic": 200,
           "instances_returned": 100, "dangerous_names_generated": 2000}
 READY = True
@@ -254,6 +259,9 @@ class Env:
         self.regtag = b"vf_c45.registered.Tag"
         self.types_before = dict(jelly.globalSecurity.allowedTypes)
         jelly.setUnjellyableForClass(self.regtag, Registered)
+        self.pool = {}
+        for k in POOL_ORDER:
+            self.pool[k] = make_policy(self, k)
         return self
 
     @staticmethod
@@ -319,43 +327,79 @@ def selftest(ctx, env):
 
 
 # ------------------------------------------------------------------ policies and their model
-def make_policy(env, k):
-    J = env.jelly
-    t = J.SecurityOptions()
-    A = (env.amod.Allowed, env.amod.Derived)
-    if k == 1:
-        t.allowBasicTypes()
-    elif k == 2:
-        t.allowInstancesOf(*A)
-    elif k == 3:
-        t.allowBasicTypes()
-        t.allowModules(AMOD)
-        t.allowTypes("function", "method", "class", "module", "instance")
-    elif k == 4:
-        t.allowInstancesOf(*A)
-        t.allowTypes("function", "method")
-    elif k == 5:
-        t.allowInstancesOf(*A)
-        t.allowTypes("method")
-    return t
+DEFAULT_TYPES = {b"None", b"bool", b"boolean", b"string", b"str", b"int", b"float", b"datetime", b"time", b"date", b"timedelta", b"NoneType",
+                 b"unicode", b"decimal", b"set", b"frozenset"}
+BASIC_TYPES = {b"dictionary", b"list", b"tuple", b"reference", b"dereference", b"unpersistable", b"persistent", b"long_int", b"long", b"dict"}
 
 
-POLICY_NAMES = ["default", "basic", "instancesOf(Allowed,Derived)", "modules(allowed)+function/method/class/module/instance",
-                "instancesOf(Allowed,Derived)+function+method", "instancesOf(Allowed,Derived)+method"]
+class Policy:
+    """A SecurityOptions plus the harness's OWN record of what was allowed on that object.  The record is
+    built by construction from the calls the harness makes (following the documented effect of each
+    allow* method) and is the only thing the oracle consults — never the taster's attributes or methods."""
 
+    def __init__(self, env, kind, taster=None):
+        self.kind = kind
+        self.taster = taster if taster is not None else env.jelly.SecurityOptions()
+        self.types, self.modules, self.classes, self.registered = set(DEFAULT_TYPES), set(), set(), {env.registered}
 
-class Model:
-    def __init__(self, env, taster):
-        self.types = set(taster.allowedTypes)
-        self.modules = {m if isinstance(m, bytes) else m.encode() for m in taster.allowedModules}
-        self.classes = set(taster.allowedClasses)
-        self.registered = {env.registered}
+    def allow_basic(self):
+        self.taster.allowBasicTypes()
+        self.types |= BASIC_TYPES
+
+    def allow_instances(self, *classes):
+        self.taster.allowInstancesOf(*classes)
+        self.types |= BASIC_TYPES | {b"instance", b"class", b"classobj", b"module"}
+        for c in classes:
+            self.types.add(("%s.%s" % (c.__module__, c.__qualname__)).encode())
+            self.modules.add(c.__module__.encode())
+            self.classes.add(c)
+
+    def allow_modules(self, *names):
+        self.taster.allowModules(*names)
+        self.modules |= {n.encode() for n in names}
+
+    def allow_types(self, *names):
+        self.taster.allowTypes(*names)
+        self.types |= {n.encode() for n in names}
 
     def module_ok(self, name):
         return name.encode("utf-8", "replace") in self.modules
 
     def type_ok(self, name):
         return name in self.types
+
+
+def make_policy(env, k):
+    A = (env.amod.Allowed, env.amod.Derived)
+    if k == 7:  # the process-wide policy object of jelly itself (basic types + what setUnjellyableForClass registered)
+        pol = Policy(env, k, env.jelly.globalSecurity)
+        pol.types |= BASIC_TYPES | {env.regtag}
+        return pol
+    pol = Policy(env, k)
+    if k == 1:
+        pol.allow_basic()
+    elif k == 2:
+        pol.allow_instances(*A)
+    elif k == 3:
+        pol.allow_basic()
+        pol.allow_modules(AMOD)
+        pol.allow_types("function", "method", "class", "module", "instance")
+    elif k == 4:
+        pol.allow_instances(*A)
+        pol.allow_types("function", "method")
+    elif k == 5:
+        pol.allow_instances(*A)
+        pol.allow_types("method")
+    elif k == 6:  # an unrelated, looser policy elsewhere in the process: it allows the OTHER module's classes
+        pol.allow_instances(env.omod.Secret, env.omod.Base)
+        pol.allow_types("function", "method")
+    return pol
+
+
+POLICY_NAMES = ["default (nothing allowed)", "basic", "instancesOf(Allowed,Derived)", "modules(allowed)+function/method/class/module/instance",
+                "instancesOf(Allowed,Derived)+function+method", "instancesOf(Allowed,Derived)+method",
+                "instancesOf(other.Secret,other.Base)+function+method", "jelly.globalSecurity"]
+POOL_ORDER = [6, 4, 3, 2, 5, 1, 0, 7]  # permissive ones are configured first, strict ones afterwards
 
 
 BASIC = {type(None): b"None", bool: b"boolean", str: b"unicode", decimal.Decimal: b"decimal", datetime.datetime: b"datetime",
@@ -557,9 +601,16 @@ def state(rng, env, depth, stats):
 # ------------------------------------------------------------------ one security case
 def run_case(ctx, env, i):
     rng = ctx.case_rng(i)
-    k = rng.randrange(6)
-    taster = make_policy(env, k)
-    model = Model(env, taster)
+    k = rng.randrange(8)
+    if rng.random() < 0.5:  # a long-lived policy object shared by many interleaved cases
+        model = env.pool[k]
+        ctx.count("pooled_policy_cases")
+    else:  # a fresh object, created after every other policy of the process was configured
+        model = make_policy(env, k)
+        ctx.count("fresh_policy_cases")
+    if not model.modules:
+        ctx.count("nothing_allowed_policy_cases")
+    taster = model.taster
     stats = {"dangerous": 0, "naming": False, "methods": 0, "inherited_or_dunder": 0}
     nlog = len(env.amod.construct_log)
     sexp = gen(rng, env, 4, stats)
@@ -606,9 +657,9 @@ def run_case(ctx, env, i):
     problems += [("audit-guard-blocked", "%s %s" % a, None) for a in audit_events]
     # constructions / calls recorded by the classes of the non-allowed harness module (also when unjelly raised)
     for what, owner, actual in env.amod.construct_log[nlog:]:
-        if what == "new" and getattr(env.omod, actual, None) is not None:
+        if what == "new" and getattr(env.omod, actual, None) is not None and getattr(env.omod, actual) not in model.classes:
             problems.append(("disallowed-class-constructed", "%s.%s.__new__ ran for %s" % (OMOD, owner, actual), getattr(env.omod, actual)))
-        elif what == "helper-called":
+        elif what == "helper-called" and not model.module_ok(OMOD):
             problems.append(("disallowed-function-called", "%s.Base.helper was called" % OMOD, env.omod.Base.helper))
         else:
             ctx.count("allowed_subclass_constructions")
@@ -758,7 +809,7 @@ def run_roundtrip(ctx, env, i):
     rng = ctx.case_rng("rt", i)
     g, shared = gen_graph(rng, env)
     use_taster = rng.random() < 0.6
-    taster = make_policy(env, 5) if use_taster else env.jelly.DummySecurityOptions()
+    taster = (env.pool[5] if rng.random() < 0.5 else make_policy(env, 5)).taster if use_taster else env.jelly.DummySecurityOptions()
     ctx.evaluated()
     ctx.count("roundtrips")
     s, diff, key = None, None, None
